@@ -215,6 +215,17 @@ pub fn format_buf(args: Vec<Rc<Object>>) -> Result<Collector, String> {
             continue;
         }
         if in_spec {
+            // The character right before '<' or '>' is the fill character, whatever
+            // it is - including ':' and the type letters 'b', 'o', 'x' and 'X'
+            if in_spec_format
+                && (next == '<' || next == '>')
+                && curr_spec_width.is_empty()
+                && matches!(curr_spec_just, SpecJustify::Default)
+            {
+                curr_spec_width.push(curr);
+                idx_fmt += 1;
+                continue;
+            }
             if curr == ':' {
                 in_spec_format = true;
                 idx_fmt += 1;
